@@ -560,6 +560,8 @@ struct Gen<'a> {
     key_prefix: String,
     key_seen: BTreeMap<String, usize>,
     // proof repair: hint key -> shift by that many sibling statements (see check: relocation search)
+    allow_gone: bool,
+    gone: bool,
     shifts: &'a BTreeMap<String, i64>,
     hint_seen: BTreeMap<String, usize>,
     hint_keys: Vec<String>,
@@ -649,9 +651,18 @@ impl<'a> Gen<'a> {
                 } else if same.len() == nsame && rank < same.len() {
                     self.log.push(json!({"rule": "re-anchored", "file": self.repo_file, "line": self.line_of(same[rank].range.start), "old": what, "note": "ordinal shifted by an edit; node found again by its fingerprint (and rank among look-alikes)"}));
                     same[rank]
-                } else if same.len() == 1 {
+                } else if same.len() == 1 && nsame == 1 {
                     self.log.push(json!({"rule": "re-anchored", "file": self.repo_file, "line": self.line_of(same[0].range.start), "old": what, "note": "ordinal shifted by an edit; node found again by its fingerprint"}));
                     same[0]
+                } else if self.allow_gone && !same.is_empty() && same.len() < nsame {
+                    // one of several look-alike nodes (e.g. two identical `map_err(|e| no_retry(e))` closures) was removed:
+                    // keep the survivors in order; the directive of the removed one is dropped and the contracts judge the edit
+                    if rank < same.len() {
+                        same[rank]
+                    } else {
+                        self.gone = true;
+                        same[same.len() - 1]
+                    }
                 } else {
                     undecided(&format!("{ctx}: anchor `{what}` moved: {} nodes of that kind now (recorded {}), {} match its fingerprint (recorded {})", cands.len(), count, same.len(), nsame))
                 }
@@ -940,7 +951,15 @@ impl<'a> Gen<'a> {
                     self.ins(n.header_end.unwrap(), format!("\n{}", s.text), o, &format!("loop{k}"));
                 }
                 "closure" => {
+                    self.allow_gone = true;
+                    self.gone = false;
                     let n = self.pick_anchor(scan, &format!("closure #{}", s.arg.trim()), "closure", &sctx);
+                    self.allow_gone = false;
+                    if self.gone {
+                        self.gone = false;
+                        self.log.push(json!({"rule": "directive-dropped", "file": self.repo_file, "line": 0, "old": format!("closure {}", s.arg.trim()), "note": "one of several look-alike closures was removed by an edit; its spec is not applied"}));
+                        continue;
+                    }
                     self.ins(n.header_end.unwrap(), format!(" {}", s.text), o, &format!("closure{}", s.arg.trim()));
                     if n.block.is_none() {
                         let b = n.body.clone().unwrap();
@@ -1326,7 +1345,7 @@ fn main() {
                 let found = find_in_items(src, &file.items, &path, &ctx);
                 let mut g = Gen { repo_file: ex.file.clone(), src, edits: vec![], seq: 0, log: vec![], rules: ex.rules.clone(), ctx: ctx.clone(), canary,
                     recorded: &recorded, observed: BTreeMap::new(), key_prefix: format!("{}|{}", ex.file, ex.path.join(" / ")), key_seen: BTreeMap::new(),
-                    shifts: &shifts, hint_seen: BTreeMap::new(), hint_keys: vec![] };
+                    allow_gone: false, gone: false, shifts: &shifts, hint_seen: BTreeMap::new(), hint_keys: vec![] };
                 let spec_for = |name: &str| ex.fns.iter().find(|f| f.name == name || f.name.is_empty());
                 let (region, func_label): (Range<usize>, String);
                 let mut prefix = String::new();
